@@ -52,6 +52,8 @@ type ROp struct {
 
 	// set by the harness from a configuration record, never by the specification
 	KeyNonce bool `json:"keynonce,omitempty"`
+	// DhOtherAlg: the delta hash is computed with the other configured hash algorithm (a hash of another length)
+	DhOtherAlg bool `json:"dhotheralg,omitempty"`
 	// SuffixPrefix: text in front of the suffix a non-create request names (a suffix is any text the request says)
 	SuffixPrefix string `json:"suffixprefix,omitempty"`
 	// ForceWay > 0: the concrete shape of this operation's failure classes is shape ForceWay-1 (modulo the
@@ -559,6 +561,10 @@ func (c *Concretizer) buildRequest(o *ROp, variant int) ([]byte, int) {
 		}
 
 		deltaHash = refModelHash(dv, alg)
+
+		if o.DhOtherAlg {
+			deltaHash = refModelHash(dv, sha2_256+sha2_512-alg)
+		}
 
 		// a delta hash that does not bind the delta comes in several spellings (one per operation, by rotation):
 		// the hash of another delta, the right hash in a non-canonical base64 spelling, a multihash of the
